@@ -213,7 +213,10 @@ func c07R3(c *Ctx) {
 }
 
 func c07R4(c *Ctx) {
-	r := c.R.Rule("R4", "K3 threshold → fatal: a nack refused by the window returns a fatal error when the threshold is > 0 (both engines), a v2 DLQ write failure is fatal, the window is consulted under the mutex before the write", 8)
+	c07R4As(c, c.R.Rule("R4", "K3 threshold → fatal: a nack refused by the window returns a fatal error when the threshold is > 0 (both engines), a v2 DLQ write failure is fatal, the window is consulted under the mutex before the write", 8))
+}
+
+func c07R4As(c *Ctx, r string) {
 	fatal := c.Fn(r, pCerrors, "FatalError")
 	isFatalRet := func(ret *ssa.Return) bool {
 		v := kit.RetVal(ret, len(ret.Results)-1)
